@@ -56,7 +56,7 @@ def main() -> int:
             print("expected-failure:", json.dumps(f, sort_keys=True)[:2000])
             print("observed-now    :", json.dumps(out, sort_keys=True)[:2000] if out else "no failure (property holds on this case)")
             return 1 if out else 0
-        res = mod.run(args.tier, seed)
+        res = env.big_call(mod.run, args.tier, seed)
     except env.HarnessError as e:
         print(f"HARNESS-ERROR {prop}: {e}")
         return 2
